@@ -22,6 +22,7 @@ type PropConfig struct {
 	Title    string   `json:"title"`
 	Assumes  []string `json:"assumptions"`
 	Notes    string   `json:"notes"`
+	Structural []string `json:"structural"`
 }
 
 type Target struct {
@@ -173,6 +174,9 @@ func cmdCheck(args []string) int {
 			fmt.Fprintf(os.Stderr, "target %s: %d obligations (%.2fs) %s\n", t.Name, len(r.Obls), r.Secs, r.Err)
 		}
 	}
+	if len(pc.Structural) > 0 && *only == "" {
+		results = append(results, &TargetResult{Target: "structural:" + strings.Join(pc.Structural, ","), Obls: structuralObligations(p, *verif, pc.Structural), Exec: NewExec(p)})
+	}
 	// discharge
 	var wg sync.WaitGroup
 	var solverSecs float64
@@ -180,7 +184,7 @@ func cmdCheck(args []string) int {
 	nq := 0
 	for ti, r := range results {
 		for oi, o := range r.Obls {
-			if o.Vacuous {
+			if o.Vacuous || (o.Class == "K" && o.Status == "failed") {
 				o.Status = "failed"
 				continue
 			}
